@@ -23,6 +23,10 @@ fn dbg_num(s: &str, key: &str) -> i64 {
 }
 
 pub fn inputs(r: &mut Rng, k: u64, target: usize) -> Vec<u8> {
+    if k % 16 == 14 {
+        // the deterministic limit family (30..34 separators, 14..17 OSC fields, 1..4 intermediates), both halves
+        return crate::gen::limit_family(k / 16);
+    }
     match k % 8 {
         0 | 1 => gen_stream(r, target, Flavor::Full),
         2 => gen_stream(r, target, Flavor::Utf8),
